@@ -543,7 +543,7 @@ impl<'a> Lexer<'a> {
 
                 // so far the only token type that can have a null character reach push
                 // because it adds all chars, mostly indiscriminately
-                if !end && c != '\0' {
+                if !end && !(c == '\0' && self.at_end) {
                     self.current_characters.push(c);
                 }
 
@@ -587,7 +587,7 @@ impl<'a> Lexer<'a> {
 
                 // so far the only token type that can have a null character reach push
                 // because it adds all chars, mostly indiscriminately
-                if !end && c != '\0' {
+                if !end && !(c == '\0' && self.at_end) {
                     self.current_characters.push(c);
                 }
 
@@ -708,7 +708,7 @@ impl<'a> Lexer<'a> {
                     self.current_characters.push(c);
                     self.should_create = false;
                     true
-                } else if c == '\0' {
+                } else if c == '\0' && self.at_end {
                     true
                 } else {
                     self.current_characters.push(c);
